@@ -523,7 +523,7 @@ package vegeta
 
 // The worker: one result per tick, Done exactly once.
 //@ func (*Attacker).attack
-//@   property C02 C03
+//@   property C02 C03 C05
 //@   requires [non-nil] a != nil && atk != nil && workers != nil && ticks != nil && results != nil && tr != nil
 //@   requires [hit-preconditions] atk.began <= clock(0) && atk.began >= 0 && !held(&atk.seqmu) && a.stopch != nil && (closed(a.stopch) <==> done(&a.stopOnce))
 //@   ghost taken int
@@ -531,10 +531,14 @@ package vegeta
 //@   ghost hits int
 //@   ghost lastHit int
 //@   ghost dones int
+//@   ghost ts0 int
+//@   ghost lat0 int
+//@   ghost seq0 int
 //@   at recv ticks: ghost taken = taken + (result1 ? 1 : 0)
-//@   before call hit: assert [C02-hit-only-for-a-received-tick] taken == sent + 1 && hits == sent
-//@   at call hit: ghost hits = hits + 1 ; ghost lastHit = ref(result)
-//@   at send results: assert [C02-delivers-exactly-that-hit] hits == sent + 1 && ref(arg0) == lastHit && arg0 != nil ; ghost sent = sent + 1
+//@   before call hit: assert [C02-hit-only-for-a-received-tick] taken == sent + 1 && hits == sent ; assert [hit-draws-from-the-attack's-own-targeter] ref(arg1) == ref(tr) && arg2 == atk
+//@   at call hit: ghost hits = hits + 1 ; ghost lastHit = ref(result) ; ghost ts0 = result.Timestamp ; ghost lat0 = result.Latency ; ghost seq0 = result.Seq
+//@   at send results: assert [C02-delivers-exactly-that-hit] hits == sent + 1 && ref(arg0) == lastHit && arg0 != nil ;
+//@        assert [C05-delivered-as-hit-stamped-it] arg0.Timestamp == ts0 && arg0.Latency == lat0 && arg0.Seq == seq0 ; ghost sent = sent + 1
 //@   at call Done: assert [C02-done-once-at-exit] dones == 0 && taken == sent ; ghost dones = dones + 1
 //@   ensures [C02-one-result-per-tick] taken == sent && hits == sent && dones == 1
 //@   loop 1
@@ -655,6 +659,10 @@ package vegeta
 //@   requires [scanner-ready] sc.src != nil && !held(&mu) && scanleft(sc.src) >= 0
 //@   requires [package-initialised] ErrNilTarget != nil && ErrNoTargets != nil && httpMethodChecker != nil
 //@   modifies *tgt, sc.peeked, *sc.src
+//@   ghost bodyLine bool = false
+//@   at call ReadFile: ghost bodyLine = true
+//@   before call Scan: assert [the-body-line-ends-the-target-nothing-is-read-after-it] !bodyLine
+//@   before call Peek: assert [the-body-line-ends-the-target-nothing-is-read-after-it] !bodyLine
 //@   ensures [nil-target-rejected] tgt == nil ==> err == ErrNilTarget
 //@   ensures [own-header-map] err == nil ==> tgt.Header != nil && fresh(tgt.Header)
 //@   ensures [own-header-values] err == nil ==> (forall k string :: cap(tgt.Header[k]) > 0 ==> fresh(tgt.Header[k]))
@@ -666,7 +674,7 @@ package vegeta
 //@     invariant held(&mu) && tgt != nil && tgt == old(tgt) && sc.src == old(sc.src) && sc.src != nil && tgt.Header != nil && fresh(tgt.Header) && hdr == old(hdr) && scanleft(sc.src) >= 0
 //@     invariant forall k string :: cap(tgt.Header[k]) > 0 ==> fresh(tgt.Header[k])
 //@   loop 3
-//@     invariant held(&mu) && tgt != nil && tgt == old(tgt) && sc.src == old(sc.src) && sc.src != nil && tgt.Header != nil && fresh(tgt.Header) && scanleft(sc.src) >= 0
+//@     invariant held(&mu) && tgt != nil && tgt == old(tgt) && sc.src == old(sc.src) && sc.src != nil && tgt.Header != nil && fresh(tgt.Header) && scanleft(sc.src) >= 0 && !bodyLine
 //@     invariant forall k string :: cap(tgt.Header[k]) > 0 ==> fresh(tgt.Header[k])
 //@     invariant len(tokens) >= 2
 //@     decreases scanleft(sc.src) + (sc.peeked != "" ? 1 : 0)
@@ -921,6 +929,7 @@ package vegeta
 //@   before call RawByte: assert [newline-after-the-record] marshalled == 1 && arg1 == 10 && newline == 0 ; ghost newline = newline + 1
 //@   before call DumpTo: assert [whole-record-then-newline-then-one-write] marshalled == 1 && newline == 1 && dumps == 0 ; ghost dumps = dumps + 1
 //@   ensures [one-whole-record-per-call] marshalled == 1 && dumps <= 1 && (dumps == 1 ==> newline == 1)
+//@   forbid [a-failed-marshal-stays-with-the-writer-so-its-partial-bytes-are-never-written] store jw.Error
 
 // gob: one Decode / Encode of the library per call (framing is the library's: not covered).
 //@ func NewDecoder$1
